@@ -135,6 +135,9 @@ pub enum LAction {
     Kill,
     Stop,
     Cont,
+    /// SIGSTOP now, SIGCONT after this much real time (a timer thread sends it, so the controller may
+    /// itself be blocked on a child whose pipe has filled up behind the stalled listener)
+    StopFor { ms: u32 },
 }
 #[derive(Serialize, Deserialize, Clone, Debug, PartialEq)]
 pub struct LFault {
@@ -361,6 +364,17 @@ pub fn drive_run_l(w: &mut World, actor: &str, sc: &RunScript, hang: Duration, l
                             }
                             LAction::Stop => ctl.signal(l, libc::SIGSTOP),
                             LAction::Cont => ctl.signal(l, libc::SIGCONT),
+                            LAction::StopFor { ms } => {
+                                ctl.signal(l, libc::SIGSTOP);
+                                let pid = ctl.procs[l].pid;
+                                std::thread::spawn(move || {
+                                    std::thread::sleep(Duration::from_millis(ms as u64));
+                                    unsafe {
+                                        libc::kill(pid, libc::SIGCONT);
+                                    }
+                                });
+                                tr.real_pause_ms += ms as u64;
+                            }
                         }
                         tr.lfaults_fired.push((f.action, tr.outs_acked));
                         tr.log.push(format!("listener {:?} at {:?}", f.action, f.at));
@@ -658,8 +672,17 @@ pub fn drive_run_l(w: &mut World, actor: &str, sc: &RunScript, hang: Duration, l
     if tr.exit.is_none() {
         tr.exit = ctl.wait_exit(proc_id, Duration::from_secs(5));
     }
-    // drop stale events of this run (EOFs of helpers, late lines)
-    let _ = ctl.drain_buffer();
+    // forget stale events of this run (EOFs and late lines of its helpers, its own late points); exits of
+    // other processes of the world (a listener, contenders) stay
+    let conns: std::collections::HashSet<usize> = tr.helpers.iter().map(|h| h.conn).collect();
+    let m_conn_actor = actor.to_string();
+    ctl.forget(|e| match e {
+        Ev::Eof { conn } => conns.contains(conn) || true,
+        Ev::Line { conn, .. } => conns.contains(conn),
+        Ev::Point(p) => p.actor == m_conn_actor,
+        Ev::Hello(h) => h.actor == m_conn_actor,
+        Ev::Exit(x) => x.proc_id == proc_id,
+    });
     let _ = hex(b"");
     tr
 }
